@@ -148,6 +148,17 @@ func runC12(c string) string {
 				results = append(results, nil)
 			}
 			out = o.text
+		case "kill":
+			// lose a machine right now (bigmachine sessions; the driver learns of it later, through its keepalive)
+			if s.sys == nil || s.sys.N() == 0 {
+				out = "skipped"
+				break
+			}
+			if s.sys.Kill(s.sys.Index(0)) {
+				out = "killed"
+			} else {
+				out = "skipped"
+			}
 		case "procs":
 			// the cluster manager's accounting once nothing runs: procs booked per machine (C14)
 			var last string
